@@ -57,8 +57,19 @@ def readVoice (path : String) : IO (Jb.Hts.Res Jb.Hts.ParsedVoice) := do
   let bytes ← IO.FS.readBinFile path
   pure (Jb.Hts.parseVoice true (bytes.toList.map (·.toNat)))
 
-/-- ops that need the voice file: the driver reads and parses it (cached per path) -/
-def runHtsLine (cache : IO.Ref (Option (String × Jb.Hts.Res Jb.Hts.ParsedVoice))) (idx : Nat) (toks : Array String) : IO String := do
+abbrev VoiceCache := IO.Ref (List (String × Jb.Hts.Res Jb.Hts.ParsedVoice))
+
+def getVoice (cache : VoiceCache) (path : String) : IO (Jb.Hts.Res Jb.Hts.ParsedVoice) := do
+  let cur ← cache.get
+  match cur.find? (·.1 == path) with
+  | some (_, v) => pure v
+  | none =>
+    let v ← readVoice path
+    cache.set ((path, v) :: cur.take 6)
+    pure v
+
+/-- ops that need voice files: the driver reads and parses them itself (cached per path) -/
+def runHtsLine (cache : VoiceCache) (idx : Nat) (toks : Array String) : IO String := do
   let op := toks[0]!
   let path := toks.getD 1 ""
   if op == "htsf" then
@@ -68,14 +79,17 @@ def runHtsLine (cache : IO.Ref (Option (String × Jb.Hts.Res Jb.Hts.ParsedVoice)
     match (Drv.HtsOp.runFault pv).run (toks, 2) with
     | .ok (v, _) => return v.render idx op
     | .error e => return s!"case {idx} op={op} error={sanitize e}"
-  let cur ← cache.get
-  let pv ← match cur with
-    | some (p, v) => if p == path then pure v else do
-        let v ← readVoice path
-        cache.set (some (path, v)); pure v
-    | none => do
-        let v ← readVoice path
-        cache.set (some (path, v)); pure v
+  if op == "e2e" then
+    let n := (toks.getD 1 "0").toNat?.getD 0
+    let mut voices : List Jb.Hts.ParsedVoice := []
+    for i in [0:n] do
+      match ← getVoice cache (toks.getD (2 + i) "") with
+      | .ok v => voices := voices ++ [v]
+      | _ => return (({ corr := some "the Lean reader rejects a voice file of an e2e case", oracle := none } : Verdict).render idx op)
+    match (Drv.HtsOp.runE2e voices).run (toks, 2 + n) with
+    | .ok (v, _) => return v.render idx op
+    | .error e => return s!"case {idx} op={op} error={sanitize e}"
+  let pv ← getVoice cache path
   match pv with
   | .ok voice =>
     let p : P Verdict := if op == "hts" then Drv.HtsOp.runHts voice else Drv.HtsOp.runMeta voice
@@ -85,16 +99,16 @@ def runHtsLine (cache : IO.Ref (Option (String × Jb.Hts.Res Jb.Hts.ParsedVoice)
   | .err e => pure (({ corr := some s!"the Lean reader rejects the file: {e}", oracle := none } : Verdict).render idx op)
   | .panic s => pure (({ corr := some s!"the Lean reader reports a panic site: {s}", oracle := none } : Verdict).render idx op)
 
-partial def loop (cache : IO.Ref (Option (String × Jb.Hts.Res Jb.Hts.ParsedVoice))) (h : IO.FS.Stream) (idx : Nat) : IO Unit := do
+partial def loop (cache : VoiceCache) (h : IO.FS.Stream) (idx : Nat) : IO Unit := do
   let line ← h.getLine
   if line.isEmpty then return ()
   let l := line.trimAscii.toString
   let toks := (l.splitOn " ").filter (· ≠ "") |>.toArray
-  let out ← if toks.size > 0 && (toks[0]! == "hts" || toks[0]! == "htsmeta" || toks[0]! == "htsf") then runHtsLine cache idx toks
+  let out ← if toks.size > 0 && (toks[0]! == "hts" || toks[0]! == "htsmeta" || toks[0]! == "htsf" || toks[0]! == "e2e") then runHtsLine cache idx toks
             else pure (runLine idx l)
   if !out.isEmpty then IO.println out
   loop cache h (if out.isEmpty then idx else idx + 1)
 
 def main : IO Unit := do
-  let cache ← IO.mkRef none
+  let cache ← IO.mkRef []
   loop cache (← IO.getStdin) 0
